@@ -97,6 +97,26 @@ CLAIMED = {
         "technique": "Lean 4 proof (refinement of the reader to a grammar, soundness + completeness) + bounded-exhaustive correspondence",
         "design_ref": "DESIGN.md §6 C13",
     },
+    "C18": {
+        "text": "Lean 4 theorems (Props/C18.lean) characterise the exit code of the transcription of applications.main/process exactly: 0 iff usable arguments, CID loads "
+                "and every file accepted; 1 iff CID rejected or (all files readable and one rejected); 3 iff the CID or a named file cannot be read; 2 iff unusable "
+                "arguments; never 4; independent of the order of the files. Correspondence: every ordered list of 0-3 files over 7 kinds x 6 CID states x --until "
+                "variants: exit code of the real main vs the model fed with the programmatic API's verdict for each file on a fresh CID.",
+        "note": "Trusted: Lean kernel; that the per-file verdict is what Reader(cid, path, validate_until) gives (measured by the harness on a fresh CID per file); "
+                "argparse behaviour is observed, not modelled. Known finding: missing .ods CID exits 1.",
+        "technique": "Lean 4 proof (decision table) + exhaustive command-line enumeration as correspondence",
+        "design_ref": "DESIGN.md §6 C18",
+    },
+    "C19": {
+        "text": "Lean 4 theorems (Props/C19.lean): one column per field in order, quoting iff keyword, NOT NULL iff not allowed to be empty (for every field list), "
+                "and per dialect the exact sub-range on which the chosen integer type stores both limits (C19_int_fits_*_partial) with proved counterexamples for the "
+                "rest. Correspondence: exhaustive boundary ranges x 4 dialects through Cid.read + SqlFactory, statement parsed back; generated CIDs for columns, "
+                "quoting (against keyword lists frozen at the pinned commit), NOT NULL, decimal digits, varchar length.",
+        "note": "Trusted: Lean kernel; the capacity table (int/integer = 32 bit, decimal precision <= 38, DB2 31); keyword lists frozen in harness/data. "
+                "Five open known findings (tinyint for negative ranges, ANSI int beyond 32 bit, limit used as decimal precision in three dialects).",
+        "technique": "Lean 4 proof (threshold ladders, omega) + exhaustive boundary enumeration as correspondence",
+        "design_ref": "DESIGN.md §6 C19",
+    },
 }
 
 NOT_YET = {
